@@ -179,6 +179,13 @@ def diff(irec, mrec, ordered=True):
         return "results differ: impl %r model %r" % (irec.res[:6], mrec.res[:6])
     if irec.res != mrec.res:
         return "order differs: impl %r model %r" % (irec.res[:6], mrec.res[:6])
+    if irec.err and irec.err == mrec.err and irec.err.startswith("run"):
+        # both abort with the same run-time error: the engine pulls lazily, so diagnostics of upstream stacks it never
+        # came to pull are not printed; the model evaluates a segment at a time.  What the engine did print must be
+        # among what the model says can be printed.
+        from collections import Counter
+        if not (Counter(irec.soft) - Counter(mrec.soft)):
+            return None
     return "soft errors differ: impl %r model %r" % (sorted(irec.soft), sorted(mrec.soft))
 
 
